@@ -12,7 +12,9 @@ import (
 	"verifharness/ref/wei"
 )
 
-func init() { core.Register(core.Check{ID: "C17", Level: "exploration", Run: runC17}) }
+func init() {
+	core.Register(core.Check{ID: "C17", Level: "exploration", Run: func(c *core.Ctx) { runC17(c); reentrancyPass(c, "C17") }})
+}
 
 type c17pt struct {
 	Name string `json:"name"`
